@@ -743,7 +743,7 @@ fn main() {
     // main workload leaves empty-ALPN dials out so that it can still run to its end
     let empty_alpn_safe = a.replay.is_some() || run_probe(&rep, a.seed);
     let rt = epkit::runtime(8);
-    let n_cases: u64 = a.pick(300, 6000);
+    let n_cases: u64 = a.pick(300, 12000);
     let par: usize = a.pick(6, 12);
     rt.block_on(async {
         let mut rng = Rng::derive(a.seed, "C42", 0);
